@@ -100,6 +100,7 @@ def frame(ln, prefix="", cpr=None, me_fields=None):
 
 
 def run_item(item):
+    item.cross_check = True      # thorough tier: discharged obligations are re-decided by cvc5
     pm = load_repo()
     from symx import nl
     nl.install(pm)
